@@ -588,7 +588,15 @@ def canon_minmax(name, xs):
                 del uniq[k]
     xs = [uniq[k] for k in sorted(uniq)]
     if len(xs) == 1: return xs[0]
-    return mk_fn(name, xs)
+    # sign: max(.., c) with c > 0 is positive; min of positives is positive
+    from .values import _pos_x
+    def pos(x):
+        c = x.constval()
+        if c is not None: return c.im == 0 and c.re > 0
+        try: return _pos_x(x)
+        except Exception: return False
+    kind = "pos" if ((name == "max" and any(pos(x) for x in xs)) or (name == "min" and all(pos(x) for x in xs))) else None
+    return mk_fn(name, xs, kind)
 
 
 def local_to_arr_slice(L, idx, st):
@@ -628,8 +636,11 @@ def store_subscript(interp, o, t, v, st, aug):
         h = getattr(o, "hook", None)
         if h: h("setitem", o, idx[0], v, st)
         return
-    if isinstance(o, LocalArr) and not o.stores and o.fill is not None and isinstance(t.value, ast.Name) and len(idx) == 1 and isinstance(idx[0], (Arr,)):
-        o = local_to_arr(o)
+    if isinstance(o, LocalArr) and isinstance(t.value, ast.Name) and len(idx) == 1 and isinstance(idx[0], (Arr,)):
+        # boolean-mask store into a local array that is completely defined (zeros/ones, or filled element by element in a loop)
+        A_ = local_to_arr(o) if (o.stores or o.fill is not None) else None
+        if (A_ is None or is_opaque(A_)) and o.stores: A_ = local_to_arr(o, st)
+        if A_ is not None and not is_opaque(A_): o = A_
     if isinstance(o, LocalArr):
         st.events.append(("store", o.ident, o.name, idx, t))
         if any(is_opaque(i) for i in idx):
@@ -670,8 +681,8 @@ def store_subscript(interp, o, t, v, st, aug):
         A = as_arr(o)
         if len(idx) == 1 and isinstance(idx[0], (Arr,)):
             M = idx[0]
-            # boolean mask store
-            if M.ndim == A.ndim and all(ca.eq(cb) for (_, ca), (_, cb) in zip(A.axes, M.axes)):
+            # boolean mask store (numpy raises IndexError unless the mask has the array's shape: equal lengths are a run-time precondition)
+            if M.ndim == A.ndim and (all(ca.eq(cb) for (_, ca), (_, cb) in zip(A.axes, M.axes)) or A.ndim == 1):
                 mp = {mv: X.var(av) for (av, _), (mv, _) in zip(A.axes, M.axes)}
                 mb = subst_val(M.body, mp)
                 if isinstance(v, Masked):
